@@ -6,7 +6,7 @@ Pipeline: (1) build + Print Assumptions of theories/C12; (2) generate random lay
 property itself, evaluated against the dictionary reference router below (`Ref`);
 (5) correspondence: the same trees/ops evaluated by the Coq model inside Coq; (6) verdict.
 """
-import json, os, re
+import json, os, re, time
 from harness import common as C
 from harness.common import clist, cbool
 
@@ -52,20 +52,54 @@ class Node:
         return None
 
 
-def handler_dict(cls):
-    """(source, tag) -> (hid, contextual): every declared pair maps to the handler that
-    declares it (the last one in method order when several do)."""
+def mro(cls, pool):
+    """the class and its base classes, nearest first"""
+    out, cur = [], cls
+    while cur is not None and len(out) <= len(pool):
+        out.append(cur)
+        cur = pool.get(cur.get("base")) if cur.get("base") is not None else None
+    return out
+
+
+def effective(cls, pool):
+    """methods a layer of this class has: for every method name defined along the MRO, the
+    definition of the nearest class; in name order.  -> [(hid, decos, defining class)]"""
+    chain = mro(cls, pool)
+    out = []
+    for hid in sorted({h for c in chain for h, _d in c["h"]}):
+        for c in chain:
+            d = [decos for h, decos in c["h"] if h == hid]
+            if d:
+                out.append((hid, d[0], c))
+                break
+    return out
+
+
+def handler_dict(cls, pool):
+    """(source, tag) -> (hid, contextual): every pair declared by a visible method maps to that
+    method (the last one in method order when several do)."""
     d = {}
-    for hid, decos in cls["h"]:
+    for hid, decos, _c in effective(cls, pool):
         ctx = bool(decos[0][2]) if decos else False
-        for src, tag, _c, _f in decos:
+        for src, tag, _c2, _f in decos:
             d[(src, tag)] = (hid, ctx)
     return d
+
+
+def normalise(tree):
+    """give every class an id (pre-order) and a base (None) when the file predates inheritance"""
+    if all("id" in c for c in classes(tree)):
+        return tree
+    for i, c in enumerate(classes(tree)):
+        c["id"] = i
+        c.setdefault("base", None)
+    return tree
 
 
 class Ref:
     def __init__(self, tree):
         self.tree = tree
+        self.pool = {c["id"]: c for c in classes(tree)}
         self.counts = {}
         self.root = self.create(tree, (tree["a"], None))
         self.saved = None
@@ -214,7 +248,7 @@ def predict_ops(rng, tree, nops, allow_static_destroy=False, with_load=True):
             if rng.random() < 0.6:
                 # aim at a declared (source, tag): pick a target with handlers and a sender of that alias
                 tn, _tp = rng.choice(nodes)
-                keys = sorted(handler_dict(tn.cls))
+                keys = sorted(handler_dict(tn.cls, ref.pool))
                 if keys:
                     src, tg = rng.choice(keys)
                     senders = [(n, p) for n, p in nodes if n.name[0] == src]
@@ -280,7 +314,7 @@ def classes(tree):
 # generation of class trees
 # ---------------------------------------------------------------------------
 
-def gen_tree(rng, max_depth=4, degenerate=False):
+def gen_tree(rng, max_depth=4, degenerate=False, inherit=0.45):
     """Random layer tree, depth <= max_depth.  Static aliases come from a small pool (the same
     alias may occur at several positions: scoping); contextual aliases are unique in the tree
     (INSTCOUNT is per class); a static sub-layer never has its parent's alias; sibling aliases
@@ -318,6 +352,42 @@ def gen_tree(rng, max_depth=4, degenerate=False):
                 decos.append([src, tag, dctx, form])
             c["h"].append([hid, decos])
             hid += rng.choice([1, 1, 2])
+    for i, c in enumerate(classes(tree)):
+        c["id"] = i
+        c["base"] = None
+    # inheritance between (non-contextual) layer classes: a class may derive from another generated
+    # class, in any position of the tree (so that either may be instantiated first); it inherits
+    # the base's handlers, overrides some (other decorators, or none at all) and adds handlers for
+    # new tags / new sources
+    pool = {c["id"]: c for c in classes(tree)}
+    statics = [c for c in classes(tree) if not c["x"]]
+    order = statics[:]
+    rng.shuffle(order)
+    for k, c in enumerate(order):
+        if k == 0 or rng.random() > inherit:
+            continue
+        b = rng.choice(order[:k])
+        c["base"] = b["id"]
+        beff = effective(b, pool)
+        own = {}
+        def rdeco(src_pool):
+            src = rng.choice(src_pool) if src_pool and rng.random() < 0.7 else rng.choice(aliases)
+            return [src, rng.choice([0, 1, 2, 3]), rng.random() < 0.3, "source"]
+        bsrc = sorted({d[0] for _h, decos, _c in beff for d in decos})
+        for hid, decos, _dc in beff:        # overriding
+            r = rng.random()
+            if r < 0.15:
+                own[hid] = []                # plain method: the base handler disappears
+            elif r < 0.35:
+                own[hid] = [rdeco(bsrc) for _ in range(rng.choice([1, 2]))]
+        top = max([x for x, _d, _c in beff] + [0]) + 8
+        free = [h for h in range(0, top) if h not in {x for x, _d, _c in beff}]
+        for hid in rng.sample(free, min(len(free), rng.choice([1, 2, 3]))):   # added handlers: new tags / new sources
+            own[hid] = [rdeco(bsrc) for _ in range(rng.choice([1, 1, 2, 3]))]
+        for hid in own:
+            for d in own[hid]:
+                d[3] = "instance" if d[2] and rng.random() < 0.5 else "source"
+        c["h"] = [[hid, own[hid]] for hid in sorted(own)]
     return tree
 
 
@@ -338,7 +408,7 @@ def tree_depth(t):
 # ---------------------------------------------------------------------------
 
 def tree_to_impl(t):
-    return {"a": astr(t["a"]), "x": t["x"],
+    return {"id": t["id"], "base": t.get("base"), "a": astr(t["a"]), "x": t["x"],
             "h": [[hid, [[astr(s), tstr(tg), c, f] for s, tg, c, f in decos]] for hid, decos in t["h"]],
             "s": [tree_to_impl(s) for s in t["s"]]}
 
@@ -360,10 +430,16 @@ def cname(n):
 def cpath(p):
     return clist([cname(tuple(x)) for x in p])
 
+def chs(h):
+    return clist(["Hd %d %s" % (hid, clist(["Dc %d %d %s" % (s, tg, cbool(c)) for s, tg, c, _f in decos]))
+                  for hid, decos in h])
+
 def ctree(t):
-    hs = clist(["Hd %d %s" % (hid, clist(["Dc %d %d %s" % (s, tg, cbool(c)) for s, tg, c, _f in decos]))
-                for hid, decos in t["h"]])
-    return "(Cls %d %s %s %s)" % (t["a"], cbool(t["x"]), hs, clist([ctree(s) for s in t["s"]]))
+    return "(CT %d %d %s %s)" % (t["id"], t["a"], cbool(t["x"]), clist([ctree(s) for s in t["s"]]))
+
+def cpool(t):
+    return clist(["(%d, (%s, %s))" % (c["id"], chs(c["h"]), "None" if c.get("base") is None else "Some %d" % c["base"])
+                  for c in classes(t)])
 
 def cop(op):
     k = op[0]
@@ -463,6 +539,13 @@ def oracle(case, events, stats):
         return [("driver produced no initial snapshot", -1, None, events[:1])]
     if not adopt(events[0]["live"], -1, "construction"):
         return out
+    first = {}
+    for n, _p in ref.nodes():
+        first.setdefault(n.cls["id"], n.uid)
+    for c in classes(tree):
+        if c.get("base") is not None and c["id"] in first and c["base"] in first:
+            k2 = "derived_created_after_base" if first[c["base"]] < first[c["id"]] else "derived_created_before_base"
+            stats[k2] = stats.get(k2, 0) + 1
     dict_cache = {}
     epoch_lookups = set()
     restarted = loaded_after_restart = False
@@ -544,7 +627,7 @@ def oracle(case, events, stats):
             if target is not None:
                 key = id(target.cls)
                 if key not in dict_cache:
-                    dict_cache[key] = handler_dict(target.cls)
+                    dict_cache[key] = handler_dict(target.cls, ref.pool)
                 d = dict_cache[key]
                 src_alias = node.name[0]
                 h = d.get((src_alias, tag))
@@ -553,6 +636,13 @@ def oracle(case, events, stats):
                     h = d.get((src_alias, 0)); kind = "default-fallback"
                 if tag == 0 and h is not None:
                     kind = "default-tag"
+                if target.cls.get("base") is not None:
+                    vis = {hid for hid, _d, _c in effective(target.cls, ref.pool)}
+                    for c in mro(target.cls, ref.pool)[1:]:
+                        for hid, decos in c["h"]:
+                            owner = [dc for hh, _d, dc in effective(target.cls, ref.pool) if hh == hid][0]
+                            if owner is not c and any(sx == src_alias and tx == tag for sx, tx, _c2, _f in decos):
+                                stats["send_pair_declared_only_by_hidden_base_method"] = stats.get("send_pair_declared_only_by_hidden_base_method", 0) + 1
                 if h is None:
                     stats["send_no_handler"] = stats.get("send_no_handler", 0) + 1
                 else:
@@ -563,10 +653,20 @@ def oracle(case, events, stats):
                         stats["send_to_instance"] = stats.get("send_to_instance", 0) + 1
                     if node.name[1] is not None:
                         stats["send_from_instance"] = stats.get("send_from_instance", 0) + 1
-                    multi = [1 for hid, decos in target.cls["h"] if hid == h[0]
+                    eff = effective(target.cls, ref.pool)
+                    multi = [1 for hid, decos, _dc in eff if hid == h[0]
                              and len({tg for s, tg, _c, _f in decos if s == src_alias}) > 1]
                     if multi:
                         stats["send_multi_tag_handler"] = stats.get("send_multi_tag_handler", 0) + 1
+                    if target.cls.get("base") is not None:
+                        stats["send_to_derived_class"] = stats.get("send_to_derived_class", 0) + 1
+                        dc = [c for hid, _d, c in eff if hid == h[0]][0]
+                        if dc is not target.cls:
+                            stats["send_inherited_handler"] = stats.get("send_inherited_handler", 0) + 1
+                        elif any(hh == h[0] for c in mro(target.cls, ref.pool)[1:] for hh, _d in c["h"]):
+                            stats["send_overriding_handler"] = stats.get("send_overriding_handler", 0) + 1
+                        else:
+                            stats["send_handler_added_by_derived"] = stats.get("send_handler_added_by_derived", 0) + 1
                 stats["lookup_" + how] = stats.get("lookup_" + how, 0) + 1
                 lk = (tuple(map(tuple, op[1])), dst)
                 if lk in epoch_lookups and how in ("descendant", "via-ancestor"):
@@ -663,7 +763,10 @@ def shrink(case, what, budget=60):
     if r is None:
         return case
     cur = {"tree": cur["tree"], "ops": cur["ops"][:r[1] + 1]}
+    t_end = time.time() + 25
     for _ in range(budget):
+        if time.time() > t_end:
+            break
         cands = [{"tree": cur["tree"], "ops": cur["ops"][:j] + cur["ops"][j + 1:]} for j in range(len(cur["ops"]) - 1)]
         if not cands:
             break
@@ -686,7 +789,7 @@ def corpus_cases():
     for fn in sorted(os.listdir(d)) if os.path.isdir(d) else []:
         if fn.endswith(".json"):
             w = json.load(open(os.path.join(d, fn)))
-            out.append({"tree": w["tree"], "ops": w["ops"], "corpus": fn})
+            out.append({"tree": normalise(w["tree"]), "ops": w["ops"], "corpus": fn})
     return out
 
 
@@ -774,17 +877,15 @@ def run(ctx):
             ops = case["ops"][:len(obs)]
             hy = wf_tree(case["tree"]) and all(o[0] != "destroy" or o[2][1] is not None for o in ops)
             nhyp += 1 if hy else 0
-            terms.append("(%s, %s, %s, %s, %s)" % (ctree(case["tree"]), clist([cop(o) for o in ops]),
+            terms.append("(%s, %s, %s, %s, %s, %s)" % (cpool(case["tree"]), ctree(case["tree"]), clist([cop(o) for o in ops]),
                                                    clist(obs), clive(ev[0]["live"]), cbool(hy)))
             idx.append(ci)
         except Untranslatable as e:
             untrans.append((ci, str(e)))
-    bad, logs = C.run_cases(PID, "cases", pre, "cls * list op * list event * list (N * (N * option N)) * bool", terms,
-                            "check_case", shard=60, max_chars=300000)
+    bad, logs = C.run_cases(PID, "cases", pre, "pcase", terms, "check_pcase", shard=60, max_chars=300000)
     # how many cases of the degenerate stream leave the model's scope (load() searching beyond own layers)
     deg = [t for t, ci in zip(terms, idx) if cases[ci].get("stream") == "degenerate"]
-    outside, _l = C.run_cases(PID, "degenerate", pre, "cls * list op * list event * list (N * (N * option N)) * bool",
-                              deg, "inside_model", shard=60, max_chars=300000) if deg else ([], [])
+    outside, _l = C.run_cases(PID, "degenerate", pre, "pcase", deg, "inside_model_p", shard=60, max_chars=300000) if deg else ([], [])
     ctx.notes += logs[:4]
     ctx.log("correspondence: %d cases, %d disagree, %d not expressible" % (len(terms), len(bad), len(untrans)))
 
@@ -798,7 +899,9 @@ def run(ctx):
                 "send_contextual", "send_plain", "send_to_instance", "send_from_instance", "send_multi_tag_handler",
                 "lookup_own-alias", "lookup_own-layer", "lookup_descendant", "lookup_via-ancestor", "lookup_repeated_memoised",
                 "inst_third_or_later", "inst_noncontextual", "load_with_instances", "skip_bad_path",
-                "op_inst", "op_destroy", "op_send", "op_set", "op_save", "op_load", "op_restart", "inst_after_restart_and_load", "load_outside_hypotheses"]
+                "op_inst", "op_destroy", "op_send", "op_set", "op_save", "op_load", "op_restart", "inst_after_restart_and_load", "load_outside_hypotheses",
+                "send_to_derived_class", "send_inherited_handler", "send_overriding_handler", "send_handler_added_by_derived",
+                "send_pair_declared_only_by_hidden_base_method", "derived_created_after_base", "derived_created_before_base"]
     ctx.cov["distribution"] = {"cases": len(cases), "tree_depth": {str(d): sum(1 for c in cases if tree_depth(c["tree"]) == d) for d in range(1, 6)},
                                "classes_per_tree_max": max(len(list(classes(c["tree"]))) for c in cases),
                                "ops_total": sum(len(c["ops"]) for c in cases),
@@ -836,7 +939,7 @@ def replay(payload):
     case = payload.get("case") or payload.get("first_disagreeing_case")
     if not case:
         print("nothing to replay"); return 0
-    c = {"tree": case["tree"], "ops": case["ops"]}
+    c = {"tree": normalise(case["tree"]), "ops": case["ops"]}
     ev = run_impl_cases([c])[0]
     for op, e in zip([["<init>"]] + c["ops"], ev):
         print(json.dumps(op), "->", json.dumps(e)[:300])
